@@ -64,9 +64,12 @@ type Scenario struct {
 	Closed bool            `json:"closed"`
 	Pre    bool            `json:"pre"`
 	Post   bool            `json:"post"` // a closed triangle sub-path follows the sub-path of the curve
-	Tn     int             `json:"tn"`
-	Td     int             `json:"td"`
-	Emb    latgeo.Emb      `json:"emb"`
+	// Via (degrees, circle arcs only): the path is first built as the 2:1 ellipse with that rotation of which the circle is the
+	// image under an anisotropic scaling, then mapped onto the circle by Path.Transform; the call is made on the result
+	Via int        `json:"via,omitempty"`
+	Tn  int        `json:"tn"`
+	Td  int        `json:"td"`
+	Emb latgeo.Emb `json:"emb"`
 }
 
 // Event is one line of trace_curves.ndjson.
@@ -86,7 +89,7 @@ type Event struct {
 }
 
 func (s *Scenario) q() int {
-	if s.Cv.Type == "chain" {
+	if s.Cv.Type == "chain" || s.Cv.Type == "bigcubic" {
 		return 16
 	}
 	if s.Cv.Type != "arc" {
@@ -116,7 +119,7 @@ func (s *Scenario) describe() string {
 	case "quad":
 		p := s.Cv.Pts
 		fmt.Fprintf(&b, "M%d %dQ%d %d %d %d", p[0][0], p[0][1], p[1][0], p[1][1], p[2][0], p[2][1])
-	case "cubic":
+	case "cubic", "bigcubic":
 		p := s.Cv.Pts
 		fmt.Fprintf(&b, "M%d %dC%d %d %d %d %d %d", p[0][0], p[0][1], p[1][0], p[1][1], p[2][0], p[2][1], p[3][0], p[3][1])
 	case "chain":
@@ -149,6 +152,9 @@ func (s *Scenario) describe() string {
 		t := s.postTri()
 		fmt.Fprintf(&b, "M%d %dL%d %dL%d %dz", t[0][0], t[0][1], t[1][0], t[1][1], t[2][0], t[2][1])
 	}
+	if s.Via != 0 {
+		return fmt.Sprintf("[built as the ellipse rx=2r, ry=r rotated by %d degrees and mapped onto this path by Transform] %s .%s(t=%d/%d)", s.Via, b.String(), s.Op, s.Tn, s.Td)
+	}
 	return fmt.Sprintf("%s .%s(t=%d/%d) emb=%s", b.String(), s.Op, s.Tn, s.Td, s.Emb.Name)
 }
 
@@ -168,7 +174,7 @@ func (s *Scenario) build() *canvas.Path {
 		x1, y1 := m(c[1])
 		x2, y2 := m(c[2])
 		p.QuadTo(x1, y1, x2, y2)
-	case "cubic":
+	case "cubic", "bigcubic":
 		c := s.Cv.Pts
 		p.MoveTo(m(c[0]))
 		x1, y1 := m(c[1])
@@ -218,6 +224,35 @@ func (s *Scenario) build() *canvas.Path {
 	return p
 }
 
+// buildVia: the circle-arc path obtained through a history of two calls: build the pre-image under the anisotropic map
+// A = R(via) diag(2,1) R(-via) (an ellipse arc with rx = 2r, ry = r, rotation via), then Path.Transform(A^-1).
+func (s *Scenario) buildVia() *canvas.Path {
+	th := float64(s.Via) * math.Pi / 180
+	sn, cs := math.Sincos(th)
+	a := latgeo.Emb{Name: "via", A: 2*cs*cs + sn*sn, B: cs * sn, C: cs * sn, D: 2*sn*sn + cs*cs}
+	m := func(v [2]int) (float64, float64) { return a.Map(float64(v[0]), float64(v[1])) }
+	p := &canvas.Path{}
+	if s.Pre {
+		p.MoveTo(m([2]int{0, 0}))
+		p.LineTo(m([2]int{3, 2}))
+	}
+	g := s.G
+	p.MoveTo(m(g.S))
+	x, y := m(g.E)
+	p.ArcTo(2*float64(g.Rx), float64(g.Ry), float64(s.Via), g.Large, g.Sweep, x, y)
+	if s.Closed {
+		p.Close()
+	}
+	if s.Post {
+		t := s.postTri()
+		p.MoveTo(m(t[0]))
+		p.LineTo(m(t[1]))
+		p.LineTo(m(t[2]))
+		p.Close()
+	}
+	return p.Transform(canvas.Matrix{{0.5*cs*cs + sn*sn, -0.5 * cs * sn, 0}, {-0.5 * cs * sn, 0.5*sn*sn + cs*cs, 0}})
+}
+
 // inverse embedding
 func inv(e latgeo.Emb) func(x, y float64) (float64, float64) {
 	d := e.Det()
@@ -233,6 +268,9 @@ func observe(s *Scenario, guard bool) (ev Event, kind string, msg any) {
 	var r *canvas.Path
 	call := func() {
 		p := s.build()
+		if s.Via != 0 {
+			p = s.buildVia()
+		}
 		switch s.Op {
 		case "flatten":
 			r = p.Flatten(float64(s.Tn) / float64(s.Td) * scale)
@@ -534,6 +572,8 @@ func (d Driver) Run(c *core.Ctx) error {
 					t0n = 13
 				} else if base.Cv.Type == "chain" {
 					t0n, tds = 5, []int{2, 8, 32} // t0 = 5/2 on the 0..150 lattice
+				} else if base.Cv.Type == "bigcubic" {
+					t0n, tds = 1, []int{2, 5, 10} // coarse tolerances on the 0..100 lattice
 				}
 				// variant: open / closed / preceded by a line sub-path
 				// plus "post" (bit 2): a closed triangle sub-path follows
@@ -569,6 +609,25 @@ func (d Driver) Run(c *core.Ctx) error {
 							emit("flatten", t0n, td, tinyEmb)
 						}
 					}
+					if base.Cv.Type == "arc" && base.Cv.Shape == "circle" && h%3 == 0 {
+						via := []int{7, 28, 29, 31}[int(h/17)%4]
+						emitVia := func(op string, tn, td int) {
+							s := base
+							s.Op, s.Tn, s.Td, s.Emb, s.Closed, s.Pre, s.Post, s.Via = op, tn, td, latgeo.Identity, closed, pre, post, via
+							atomic.AddInt64(&nCalls, 1)
+							ev, kind, msg := observe(&s, false)
+							if kind != "" {
+								c.Report(&s, []core.Mismatch{panicMismatch(&s, kind, msg)})
+								return
+							}
+							local = append(local, item{&s, ev})
+						}
+						for _, td := range tds {
+							emitVia("flatten", t0n, td)
+						}
+						emitVia("replacearcs", 0, 1)
+						emitVia("xmonotone", 0, 1)
+					}
 					if base.Cv.Type == "arc" {
 						emit("replacearcs", 0, 1, latgeo.Identity)
 						emit("replacearcs", 0, 1, e1)
@@ -597,6 +656,7 @@ func (d Driver) Run(c *core.Ctx) error {
 	stage(func() {
 		collect("cubic", tlc.Opts{Module: "Curves", Config: cfg("cubic", 3, c.Pick(400, 2000)), Seed: c.Seed + 1, Workers: 2})
 	})
+	stage(func() { collect("cubic1i", tlc.Opts{Module: "Curves", Config: cfg("cubic1i", 3, 0), Workers: 2}) })
 	stage(func() { collect("chain", tlc.Opts{Module: "Curves", Config: cfg("chain", 3, 0), Workers: 2}) })
 	stage(func() {
 		collect("arc", tlc.Opts{Module: "Curves", Config: cfg("arc", 3, c.Pick(150, 1000)), Seed: c.Seed + 2, Workers: 2})
@@ -642,7 +702,7 @@ func (d Driver) Run(c *core.Ctx) error {
 			c.Count(0, 0, 1)
 			it := items[i]
 			if len(it.ev.Out) > 0 && len(it.ev.Out[len(it.ev.Out)-1]) >= 3 {
-				key := fmt.Sprintf("%v|%v|%v|%v|%s|%d", it.s.Cv, it.s.Closed, it.s.Pre, it.s.Post, it.s.Op, it.s.Td)
+				key := fmt.Sprintf("%v|%v|%v|%v|%s|%d|%d", it.s.Cv, it.s.Closed, it.s.Pre, it.s.Post, it.s.Op, it.s.Td, it.s.Via)
 				if !seen[key] {
 					seen[key] = true
 					nontriv++
